@@ -370,7 +370,11 @@ class FastSerialCommunicator(LogMixin):
             if self.port_debug:
                 self.log.info("<<<< %s", msg)
 
-            self._dispatch_incoming_msg(msg)
+            try:
+                self._dispatch_incoming_msg(msg)
+            except ValueError as e:
+                # a well-framed but malformed message: skip it and keep decoding what follows
+                self.log.warning("Malformed message received, skipping: %s (%s)", msg, e)
 
     def _dispatch_incoming_msg(self, msg):
         # Figures out what to do with incoming messages
